@@ -50,7 +50,7 @@ func runC15(t *testing.T, seed uint64, m *Mask) *Report {
 	sc, nc, r := swarm(seed, m)
 	opt := world.Options{Seed: seed, Sim: sc, Net: nc}
 	proto := []string{"raw", "raw", "json", "pb", "thrift-binary"}[r.Intn(5)]
-	kinds := []string{"ok", "notfound", "badbody", "panic", "veto", "closed_call", "cut_pending", "dial_fail", "proxy_ok", "proxy_ok", "proxy_backend_closed", "proxy_push_backend_closed", "proxy_backend_cut", "proxy_push_ok", "reply_write_fails", "handshake_timeout", "plugin_panics_on_error_reply", "relay_closed_status", "shipped_plugins_notfound", "shipped_plugins_error", "shipped_plugins_ok", "unsupported_type_frame", "unsupported_type_frame"}
+	kinds := []string{"ok", "notfound", "badbody", "panic", "veto", "closed_call", "cut_pending", "dial_fail", "proxy_ok", "proxy_ok", "proxy_backend_closed", "proxy_push_backend_closed", "proxy_backend_cut", "proxy_push_ok", "reply_write_fails", "handshake_timeout", "plugin_panics_on_error_reply", "relay_closed_status", "shipped_plugins_notfound", "shipped_plugins_error", "shipped_plugins_ok", "unsupported_type_frame", "unsupported_type_frame", "handler_outlives_context_age"}
 	n := 3 + r.Intn(13)
 	var hist []string
 	for i := 0; i < n; i++ {
@@ -137,6 +137,8 @@ func runC15(t *testing.T, seed uint64, m *Mask) *Report {
 		var authSrv erpc.Peer
 		// a serving peer that carries shipped plugins as peer-level (global) plugins: they see every reply of that
 		// peer, the framework's own failure replies included
+		var agedPeer erpc.Peer
+		var agedRt world.Routes
 		var plugged erpc.Session
 		var pluggedRt world.Routes
 		connectPlugged := func() {
@@ -230,6 +232,23 @@ func runC15(t *testing.T, seed uint64, m *Mask) *Report {
 				}
 				e.Issue(direct, rt, op, nil)
 				stampPanics = false
+			case "handler_outlives_context_age":
+				// a serving peer with a context age, and handlers that take longer than that (two at once): whatever the
+				// framework answers - today nothing, the calls end when the connection goes - no shared status may change
+				if agedPeer == nil {
+					agedPeer = e.NewPeer("aged", erpc.PeerConfig{DefaultContextAge: 20 * time.Millisecond})
+					agedRt = e.RegisterStd(agedPeer)
+				}
+				s, _, ca, _ := e.ServePair(cli, agedPeer, pf, pf)
+				pending := 2
+				for k := 0; k < 2; k++ {
+					op := mkop("call", "echo")
+					op.HSleep = time.Duration(40+20*k) * time.Millisecond
+					simrt.GoNamed("slowcaller", func() { e.Issue(s, agedRt, op, nil); pending-- })
+				}
+				simrt.Sleep(150 * time.Millisecond)
+				ca.CutNow()
+				simrt.WaitCond(func() bool { return pending == 0 })
 			case "unsupported_type_frame":
 				// a foreign client sends a frame whose type the read loop does not serve (an authentication frame to a
 				// peer without a checker, an undefined type): the session is refused with the framework's 405 status
